@@ -7,12 +7,17 @@
 //          lattice around the powers of two (63..5000) or is random, and it is a run of one ordinary character, a cycling
 //          alphabet, a run of one markup character, an ordinary run with one markup character, or alternating blocks.
 //          A test may also fail by a real STRCMP_EQUAL of two long strings (message built by the framework).
+//          The registry is run 1..3 times against the SAME output object with a fresh TestResult per pass (what
+//          CommandLineTestRunner does for -rN), the order optionally reversed before a pass (groups stay consecutive; no
+//          shuffle: the statement's precondition); one case in three goes through a real CommandLineTestRunner subclass with
+//          argv "-ojunit [-k package] [-rN] [-ri] [-b]".  Every pass has to write its own complete set of files.
 // Execution: a REAL run: TestRegistry::runAllTests over UtestShell / IgnoredUtestShell subclasses whose createTest()
 //          returns the scripted Utest; the output is a plain JUnitTestOutput; files are captured through the
 //          PlatformSpecificFOpen / FPuts / FClose seams (one capture per fopen).
 // Oracle:  libexpat parses every captured file; the parsed tree is compared with a model computed from the script alone.
 #include "common.h"
 #include "CppUTest/JUnitTestOutput.h"
+#include "CppUTest/CommandLineTestRunner.h"
 #include <expat.h>
 #include <memory>
 #include <deque>
@@ -29,7 +34,12 @@ const char* const KEY_ATTR = "C16:attribute-value-unescaped";
 struct Step { int kind; std::string text, file; uint32_t line; std::string op2; };   // 0 print through the result, 1 UT_PRINT_LOCATION, 2 FAIL at (file,line), 3 STRCMP_EQUAL(text, op2) at (file,line)
 struct TestM { std::string name, file; uint32_t line = 1; bool ignored = false; std::vector<Step> body, teardown; };
 struct GroupM { std::string name; std::vector<TestM> tests; };
-struct CaseM { std::string package; bool runIgnored = false; std::vector<GroupM> groups; };
+struct CaseM {
+    std::string package; bool runIgnored = false; std::vector<GroupM> groups;
+    uint32_t passes = 1;        // runs of the registry against the same output object
+    bool viaRunner = false;     // through CommandLineTestRunner (-rN ...) instead of the harness's own loop
+    bool reverse[3] = {false, false, false};   // reverse the registry before pass p (runner: reverse[0] only, -b)
+};
 
 struct FailM { std::string file; uint32_t line; std::string msg; bool natural = false; std::string op2; size_t index = 0; };   // index: position among all failures of the run
 struct TestSim { bool executed = false; std::vector<std::string> prints; std::vector<FailM> fails; };
@@ -149,6 +159,9 @@ CaseM decode(Reader& r) {
     uint32_t sv = r.below(8);
     uint32_t style = sv == 0 ? 0 : (sv <= 3 ? 1 : 2);
     c.runIgnored = r.below(4) == 1;
+    { uint32_t v = r.below(6); c.passes = v <= 2 ? 1 : (v <= 4 ? 2 : 3); }
+    c.viaRunner = r.below(3) == 2;
+    for (uint32_t p = 0; p < c.passes; p++) c.reverse[p] = r.below(3) == 2;
     if (r.below(4) >= 2) c.package = gen_name(r, style, 5);
     uint32_t ng = 1 + r.below(4);
     for (uint32_t g = 0; g < ng; g++) {
@@ -201,11 +214,11 @@ TestSim simulate(const CaseM& c, const TestM& t) {
 }
 
 // ---------------------------------------------------------------- execution against the real framework
-TestResult* g_result = nullptr;
+TestResult* current_result();
 
 void run_steps(const std::vector<Step>& steps) {
     for (auto& st : steps) {
-        if (st.kind == 0) g_result->print(st.text.c_str());
+        if (st.kind == 0) current_result()->print(st.text.c_str());
         else if (st.kind == 1) UtestShell::getCurrent()->print(st.text.c_str(), st.file.c_str(), st.line);      // UT_PRINT_LOCATION
         else if (st.kind == 2) UtestShell::getCurrent()->fail(st.text.c_str(), st.file.c_str(), st.line);        // FAIL_TEXT at a location; leaves the phase
         else UtestShell::getCurrent()->assertCstrEqual(st.text.c_str(), st.op2.c_str(), NULLPTR, st.file.c_str(), st.line);   // STRCMP_EQUAL_LOCATION; leaves the phase
@@ -221,12 +234,19 @@ struct Shell : UtestShell {
     const TestM* t;
     Shell(const char* group, const TestM* tm) : UtestShell(group, tm->name.c_str(), tm->file.c_str(), tm->line), t(tm) {}
     Utest* createTest() CPPUTEST_OVERRIDE { return new ScriptedTest(t); }
+    TestResult* result() { return getTestResult(); }
 };
 struct IgnoredShell : IgnoredUtestShell {
     const TestM* t;
     IgnoredShell(const char* group, const TestM* tm) : IgnoredUtestShell(group, tm->name.c_str(), tm->file.c_str(), tm->line), t(tm) {}
     Utest* createTest() CPPUTEST_OVERRIDE { return new ScriptedTest(t); }
+    TestResult* result() { return getTestResult(); }
 };
+TestResult* current_result() {
+    UtestShell* cur = UtestShell::getCurrent();
+    if (Shell* a = dynamic_cast<Shell*>(cur)) return a->result();
+    return static_cast<IgnoredShell*>(cur)->result();
+}
 
 // captured file system: one capture per fopen
 struct Cap { std::string name, mode, data; bool open = true; int closes = 0; };
@@ -255,6 +275,15 @@ struct RecordingJUnit : JUnitTestOutput {
     void printFailure(const TestFailure& f) CPPUTEST_OVERRIDE { g_messages.push_back(f.getMessage().asCharString()); JUnitTestOutput::printFailure(f); }
 };
 
+struct Runner : CommandLineTestRunner {
+    Runner(int ac, const char* const* av, TestRegistry* reg) : CommandLineTestRunner(ac, av, reg) {}
+    TestOutput* createJUnitOutput(const SimpleString& packageName) CPPUTEST_OVERRIDE {
+        RecordingJUnit* o = new RecordingJUnit;
+        o->setPackageName(packageName);
+        return o;
+    }
+};
+
 void execute(const CaseM& c) {
     g_files.clear(); g_stray_puts = 0; g_stray_close = 0;
     verif::fake_millis_value = 0;
@@ -265,15 +294,30 @@ void execute(const CaseM& c) {
             else shells.emplace_back(new Shell(g.name.c_str(), &t));
         }
     g_messages.clear();
+    TestRegistry reg;
+    for (size_t i = shells.size(); i-- > 0;) reg.addTest(shells[i].get());   // addTest prepends
+    if (c.viaRunner) {
+        std::vector<std::string> args = {"harness", "-ojunit"};
+        if (!c.package.empty()) { args.push_back("-k"); args.push_back(c.package); }
+        if (c.passes > 1) args.push_back("-r" + std::to_string(c.passes));
+        if (c.runIgnored) args.push_back("-ri");
+        if (c.reverse[0]) args.push_back("-b");
+        std::vector<const char*> av;
+        for (auto& a : args) av.push_back(a.c_str());
+        Runner runner((int)av.size(), av.data(), &reg);
+        runner.runAllTestsMain();
+        UtestShell::setRethrowExceptions(false);
+        return;
+    }
     RecordingJUnit out;
     if (!c.package.empty()) out.setPackageName(c.package.c_str());
-    TestResult result(out);
-    TestRegistry reg;
     if (c.runIgnored) reg.setRunIgnored();
-    for (size_t i = shells.size(); i-- > 0;) reg.addTest(shells[i].get());   // addTest prepends
-    g_result = &result;
-    reg.runAllTests(result);
-    g_result = nullptr;
+    for (uint32_t p = 0; p < c.passes; p++) {
+        if (c.reverse[p]) reg.reverseTests();
+        out.printTestRun(p + 1, c.passes);
+        TestResult result(out);          // a fresh result per pass, the same output object
+        reg.runAllTests(result);
+    }
 }
 
 // ---------------------------------------------------------------- the judge: expat
@@ -335,7 +379,7 @@ std::string expected_file_name(const CaseM& c, const GroupM& g) {
 }
 
 std::string render(const CaseM& c) {
-    std::string o = sfmt("package=\"%s\" runIgnored=%d;", P(c.package).c_str(), c.runIgnored);
+    std::string o = sfmt("package=\"%s\" runIgnored=%d passes=%u%s reverse=%d,%d,%d;", P(c.package).c_str(), c.runIgnored, c.passes, c.viaRunner ? " via CommandLineTestRunner" : "", c.reverse[0], c.reverse[1], c.reverse[2]);
     for (auto& g : c.groups) {
         o += sfmt(" GROUP \"%s\" {", P(g.name).c_str());
         for (auto& t : g.tests) {
@@ -476,28 +520,46 @@ int run_and_judge(const CaseM& c, bool useKnown, Verdict& v) {
     if (!c.package.empty()) verif::cls("package");
     if (groupsWithFailure >= 2) verif::cls("failures-in-2+-groups");
 
+    verif::cls(sfmt("passes:%u%s", c.passes, c.viaRunner ? "-via-CommandLineTestRunner" : "").c_str());
+
     execute(c);
 
-    V_CHECK(g_files.size() == c.groups.size(), "C16:file-count", "%zu files opened for %zu groups", g_files.size(), c.groups.size());
+    V_CHECK(g_files.size() == c.groups.size() * c.passes, "C16:file-count", "%zu files opened for %zu groups x %u passes", g_files.size(), c.groups.size(), c.passes);
     V_CHECK(g_stray_puts == 0 && g_stray_close == 0, "C16:file-io-protocol", "%d writes and %d closes on a file that is not open", g_stray_puts, g_stray_close);
     bool sameName = false;
-    for (size_t k = 0; k < c.groups.size(); k++) {
-        const GroupM& g = c.groups[k]; const Cap& cap = *g_files[k];
-        std::string want = expected_file_name(c, g);
-        V_CHECK(cap.name == want, "C16:file-name", "file #%zu is named \"%s\"; group \"%s\" package \"%s\" should give \"%s\" (%s)", k, P(cap.name).c_str(), P(g.name).c_str(), P(c.package).c_str(), P(want).c_str(), D(cap.name, want).c_str());
-        V_CHECK(!cap.open && cap.closes == 1, "C16:file-not-closed", "file \"%s\" closed %d times", P(cap.name).c_str(), cap.closes);
-        for (size_t j = 0; j < k; j++) if (g_files[j]->name == cap.name) sameName = true;
-        // strings that the writer places inside attribute values
-        bool markupNames = has_any(c.package, "&<\"") || has_any(g.name, "&<\"");
-        for (size_t i = 0; i < g.tests.size(); i++) {
-            if (has_any(g.tests[i].name, "&<\"") || has_any(g.tests[i].file, "&<\"")) markupNames = true;
-            if (!sims[k][i].fails.empty() && has_any(sims[k][i].fails[0].file, "&<\"")) markupNames = true;
+    bool reversed = false;
+    size_t failIndex = 0;
+    for (uint32_t pass = 0; pass < c.passes; pass++) {
+        // the order of this pass: a reversal turns the whole list round (groups stay consecutive)
+        if (c.reverse[pass] && (!c.viaRunner || pass == 0)) { reversed = !reversed; verif::cls("order:reversed-before-a-pass"); }
+        std::vector<GroupM> order(c.groups);
+        if (reversed) { std::reverse(order.begin(), order.end()); for (auto& g : order) std::reverse(g.tests.begin(), g.tests.end()); }
+        std::vector<std::vector<TestSim>> psims;
+        for (auto& g : order) {
+            psims.emplace_back();
+            for (auto& t : g.tests) { psims.back().push_back(simulate(c, t)); for (auto& f : psims.back().back().fails) f.index = failIndex++; }
         }
-        if (markupNames) {
-            verif::cls("group:markup-in-attribute-strings");
-            if (useKnown && verif::known(KEY_ATTR)) continue;   // known finding: such a file is not judged
-        } else verif::cls("group:judged-clean-names");
-        if (judge_file(c, g, sims[k], cap, markupNames ? KEY_ATTR : nullptr)) return 1;
+        for (size_t k = 0; k < order.size(); k++) {
+            const GroupM& g = order[k]; const Cap& cap = *g_files[pass * order.size() + k];
+            std::string want = expected_file_name(c, g);
+            V_CHECK(cap.name == want, "C16:file-name", "pass %u file #%zu is named \"%s\"; group \"%s\" package \"%s\" should give \"%s\" (%s)", pass + 1, k, P(cap.name).c_str(), P(g.name).c_str(), P(c.package).c_str(), P(want).c_str(), D(cap.name, want).c_str());
+            V_CHECK(!cap.open && cap.closes == 1, "C16:file-not-closed", "file \"%s\" closed %d times", P(cap.name).c_str(), cap.closes);
+            if (pass == 0) for (size_t j = 0; j < k; j++) if (g_files[j]->name == cap.name) sameName = true;
+            // strings that the writer places inside attribute values
+            bool markupNames = has_any(c.package, "&<\"") || has_any(g.name, "&<\"");
+            for (size_t i = 0; i < g.tests.size(); i++) {
+                if (has_any(g.tests[i].name, "&<\"") || has_any(g.tests[i].file, "&<\"")) markupNames = true;
+                if (!psims[k][i].fails.empty() && has_any(psims[k][i].fails[0].file, "&<\"")) markupNames = true;
+            }
+            if (markupNames) {
+                verif::cls("group:markup-in-attribute-strings");
+                if (useKnown && verif::known(KEY_ATTR)) continue;   // known finding: such a file is not judged
+            } else verif::cls("group:judged-clean-names");
+            if (judge_file(c, g, psims[k], cap, markupNames ? KEY_ATTR : nullptr)) {
+                if (c.passes > 1) verif::g_fail_msg = sfmt("[pass %u of %u] ", pass + 1, c.passes) + verif::g_fail_msg;
+                return 1;
+            }
+        }
     }
     if (sameName) verif::cls("two-groups-same-file-name");
     return 0;
